@@ -5,12 +5,13 @@
 (* under every partial-environment shape: unknown principal / action /     *)
 (* resource / whole context, unknowns nested in context records and sets,  *)
 (* two unknowns at once, ignored principal / context, and the fully        *)
-(* concrete environment.  The harness runs the real PartialPolicy on each  *)
+(* concrete environment; and the conditions-loop family (see below).  The  *)
+(* harness runs the real PartialPolicy on each  *)
 (* and records the residual; Trace_Partial judges it.                      *)
 (***************************************************************************)
 EXTENDS Partial, ExprUniverse, Json, IOUtils, TLC
 
-CONSTANTS UseDepth2, Stride
+CONSTANTS UseDepth2, Stride, LoopStride
 
 Exprs == IF UseDepth2 THEN Depth1 \o Depth2 ELSE Depth1
 
@@ -48,13 +49,47 @@ PolicyOf(i) ==
       resource |-> IF i % 4 = 0 THEN ScopeIsIn("G", G("top")) ELSE ScopeAll,
       conds |-> conds]
 
+\* ---------------------------------------------------------------- the conditions loop
+\* Policies with three conditions, every ordered triple over bodies that partial evaluation drops (constant,
+\* satisfied), rewrites (partly known), keeps as written (unknown), fails (error) or -- on an ignored part --
+\* drops from a permit, under environment shapes that mix unknown and ignored parts: every order in which the
+\* loop over the conditions of PartialPolicy can meet "drop", "rewrite", "keep" and "stop".
+CondBodies == <<
+  Bin("eq", CK, L1),                                  \* refers to the context
+  NC,                                                 \* refers to the principal
+  Bin("in", RVar, V(G("top"))),                       \* refers to the resource
+  T,                                                  \* constant: dropped when satisfied
+  Bin("and", NC, Bin("eq", CK, L1)),                  \* rewritten when one side is known
+  ErrE >>                                             \* fails
+KindPatterns == << <<"when", "when", "when">>, <<"unless", "when", "when">>, <<"when", "unless", "when">>, <<"when", "when", "unless">> >>
+LoopShapes == <<
+  [BaseEnv EXCEPT !.p = Unk("x"), !.c = Ign],
+  [BaseEnv EXCEPT !.p = Ign, !.r = Unk("x")],
+  [BaseEnv EXCEPT !.c = Ign, !.r = Unk("x"), !.p = Unk("y")],
+  [BaseEnv EXCEPT !.c = Ign],
+  [BaseEnv EXCEPT !.p = Unk("x")],
+  [BaseEnv EXCEPT !.c = VRec([k |-> Unk("x"), s |-> VStr(<<97>>)]), !.r = Ign] >>
+NB == Len(CondBodies)
+LoopCount == NB * NB * NB * Len(KindPatterns) * 2
+LoopPolicy(i) ==        \* i in 0 .. LoopCount - 1
+  LET b1 == (i % NB) + 1  b2 == ((i \div NB) % NB) + 1  b3 == ((i \div (NB * NB)) % NB) + 1
+      kp == KindPatterns[((i \div (NB * NB * NB)) % Len(KindPatterns)) + 1]
+      eff == IF (i \div (NB * NB * NB * Len(KindPatterns))) % 2 = 0 THEN "permit" ELSE "forbid"
+  IN [effect |-> eff, annos |-> <<>>, principal |-> ScopeAll, action |-> ScopeAll, resource |-> ScopeAll,
+      conds |-> << [kind |-> kp[1], body |-> CondBodies[b1]], [kind |-> kp[2], body |-> CondBodies[b2]],
+                   [kind |-> kp[3], body |-> CondBodies[b3]] >>]
+
 VARIABLES idx, sh, done
 vars == <<idx, sh, done>>
-Init == idx \in { i \in DOMAIN Exprs : i % Stride = 0 } /\ sh \in DOMAIN Shapes /\ done = FALSE
+\* idx > 0: expression universe policy idx under shape sh; idx <= 0: loop policy -idx under loop shape sh
+Init == /\ done = FALSE
+        /\ \/ idx \in { i \in DOMAIN Exprs : i % Stride = 0 } /\ sh \in DOMAIN Shapes
+           \/ idx \in { -i : i \in { j \in 0..(LoopCount - 1) : j % LoopStride = 0 } } /\ sh \in DOMAIN LoopShapes
 Next == ~done /\ done' = TRUE /\ UNCHANGED <<idx, sh>>
 
 Emit ==
   done =>
-    Serialize(ToJson([op |-> "partial", policy |-> PolicyOf(idx), penv |-> Shapes[sh]]) \o "\n", "cases.ndjson",
+    Serialize(ToJson(IF idx > 0 THEN [op |-> "partial", policy |-> PolicyOf(idx), penv |-> Shapes[sh]]
+                     ELSE [op |-> "partial", policy |-> LoopPolicy(-idx), penv |-> LoopShapes[sh]]) \o "\n", "cases.ndjson",
               [format |-> "TXT", charset |-> "UTF-8", openOptions |-> <<"WRITE", "CREATE", "APPEND">>]).exitValue = 0
 =============================================================================
